@@ -224,6 +224,7 @@ func (g *ctrGen) Snapshot() ([]byte, error) { return []byte(fmt.Sprint(atomic.Lo
 func (g *ctrGen) New() id.Id                { return ctrId{fmt.Sprintf("h%d", atomic.AddUint64(&g.n, 1))} }
 
 var sharedGen = &ctrGen{}
+var instCount uint64
 
 // SetXML renders several processes (executable flags given) plus a collaboration with message flows (source throw/… id, target id).
 func SetXML(procs []*Prog, executable []bool, flows [][2]string, extra string) string {
@@ -320,7 +321,12 @@ func StartInst(defs *schema.Definitions, o InstOpt) (*Inst, error) {
 	ctx, cancel := context.WithCancel(context.Background())
 	in := &Inst{Ctx: ctx, Cancel: cancel, pending: map[string][]bpmn.TaskTrace{}, ntask: map[string]int{}, raw: o.Raw, defs: defs, foreign: o.ForeignTracer, gram: newTraceGrammar()}
 	in.cond = sync.NewCond(&in.mu)
-	opts := []bpmn.Option{bpmn.WithContext(ctx), bpmn.WithIdGenerator(sharedGen)}
+	// every other instance draws its ids from the engine's own default generator, the others from the harness's
+	// counter shared by all instances (both are legitimate configurations; a scenario's own option comes last)
+	opts := []bpmn.Option{bpmn.WithContext(ctx)}
+	if atomic.AddUint64(&instCount, 1)%2 == 0 {
+		opts = append(opts, bpmn.WithIdGenerator(sharedGen))
+	}
 	if o.Vars != nil {
 		opts = append(opts, bpmn.WithVariables(o.Vars))
 	}
